@@ -43,7 +43,7 @@ def units(tier):
                                                                                     ("tables", 0), ("grid", (2, 3, 2)), ("grid", (4, 1, 3)),
                                                                                     ("dos", "smear", "-"), ("dos", "tetra", "tric2"), ("dos", "tetra", "hex2")]
     if tier == "thorough":
-        u += [("dos", "tetra", "cscl"), ("dos", "tetra", "mono2")]
+        u += [("dos", "tetra", "tet2"), ("dos", "tetra", "mono2")]
         u += [("grid", (3, 3, 3)), ("grid", (1, 1, 5)), ("tables", 1)]
     return u
 
@@ -507,7 +507,8 @@ def _dos_mesh(gid):
     from checks.c19 import spring_fc
     ph = geometries.phonopy_obj(gid, "211")
     ph.force_constants = spring_fc(ph, seed=7)
-    ph.run_mesh([2, 2, 2] if gid != "hex2" else [3, 3, 2], with_eigenvectors=True, is_mesh_symmetry=False, is_gamma_center=(gid == "hex2"))
+    lowsym = gid in ("tric2", "mono2")       # in higher symmetry the 2x2x2 Monkhorst-Pack points are all equivalent (flat spectrum, zero DOS width)
+    ph.run_mesh([2, 2, 2] if lowsym else [3, 3, 2], with_eigenvectors=True, is_mesh_symmetry=False, is_gamma_center=not lowsym)
     return ph
 
 
@@ -521,8 +522,10 @@ def dos_tetra_unit(u, res):
     mesh = ph._mesh
     nq, nb = mesh.frequencies.shape
     nat = nb // 3
-    fr = np.sort(mesh.frequencies.ravel())
-    fpts = np.array([fr[len(fr) // 5] + 0.013, fr[len(fr) // 2] + 0.007, fr[(4 * len(fr)) // 5] - 0.011])
+    # frequency points inside the three widest bands (so that some tetrahedron spans each of them)
+    lo = mesh.frequencies.min(axis=0); hi = mesh.frequencies.max(axis=0)
+    wide = np.argsort(hi - lo)[::-1][:3]
+    fpts = np.sort(np.array([lo[b] + 0.41 * (hi[b] - lo[b]) for b in wide]))
     es = harness.reals("E2", nq * nat * nb)
     Abox = box(es, 0, 1)
     E2 = symnp.wrap_reals(es, (nq, nat, nb))
@@ -580,7 +583,7 @@ def dos_tetra_unit(u, res):
         res.queries.append({"name": name + " [ground fact, %s]" % gid, "verdict": "unsat" if ok else "sat", "seconds": 0.0, "nvars": 0, "nontrivial": False, "hash": "ground"})
         if not ok:
             res.violations.append({"key": key + ":ground:" + name.split(" ")[0], "what": name + " fails on " + gid, "replay": {"crystal": gid}})
-    v2, _, _ = assert_equal(Result("t"), "twin", symnp.unwrap(out[("C", "atoms")])[:6], [t * Fraction(3, 2) if isinstance(t, z3.ExprRef) else t for t in symnp.unwrap(out[("Py", "atoms")])[:6]], Abox, tol=1e-9)
+    v2, _, _ = assert_equal(Result("t"), "twin", symnp.unwrap(out[("C", "atoms")]), [t * Fraction(3, 2) if isinstance(t, z3.ExprRef) else t for t in symnp.unwrap(out[("Py", "atoms")])], Abox, tol=1e-9, chunk=100)
     res.twins.append({"name": "dos twin (factor 1.5) refutable", "verdict": v2})
     res.samples.append({"unit": res.unit, "grid_points": int(nq), "bands": int(nb), "symbols": len(es), "frequency_points": fpts.tolist()})
     return res
